@@ -140,7 +140,7 @@ def local_func_on_copy(x: np.ndarray):
     return zero(x.copy())
 
 
-def comp_of_copies(xss: list):
+def comp_of_copies(xss: list[list[np.ndarray]]):
     out = [y.copy() for xs in xss for y in xs]
     out[0][...] = 0.0
     return out
